@@ -170,11 +170,24 @@ for _var, _file in (("gnat", GN), ("gnatnts", NT)):
                       sources=[dict(name="split_distribute", file=_file, begin=r"for \(unsigned int j = 0; j < data_\.size\(\); \+\+j\)\s*\{\s*unsigned int k = 0;", end=r"for \(auto &child : children_\)\s*\{\s*// make sure|for \(auto &child : children_\)\s*\{\s*child->degree_", rules=SPL_RULES, loops={"allow_uncontracted": True})],
                       canaries=[dict(name="pivot_recognised_by_value", where="body:split_distribute", rx=r"if \(j != pivots\[k\]\)", repl="if (DISTS[j][k] != 0.0)")]))
 
+KCF = "src/ompl/datastructures/GreedyKCenters.h"
+KC_RULES = [(r"std::vector<double> minDist\(data\.size\(\), std::numeric_limits<double>::infinity\(\)\);", "double minDist[NP]; for (unsigned q_ = 0; q_ < NP; q_++) minDist[q_] = __builtin_inf();", 0),
+            (r"centers\.clear\(\);", "centers_n = 0;", 0), (r"centers\.reserve\(k\);", "", 0), (r"\(std::size_t\)dists\.rows\(\)", "(size_t)rows", 0), (r"\(std::size_t\)dists\.cols\(\)", "(size_t)cols", 0),
+            (r"dists\.resize\(std::max\(2u \* \(size_t\)rows \+ 1u, data\.size\(\)\), k\);", "RESIZE((unsigned)MAXU(2u * (size_t)rows + 1u, (size_t)data_n), k);", 0),
+            (r"centers\.push_back\(rng_\.uniformInt\(0, data\.size\(\) - 1\)\);", "centers[centers_n++] = UNIFORM_INT(0, data_n - 1);", 0), (r"centers\.push_back\(ind\);", "centers[centers_n++] = ind;", 0),
+            (r"const _T &center = data\[centers\[i - 1\]\];", "const unsigned center = centers[i - 1];", 0), (r"const _T &center = data\[centers\.back\(\)\];", "const unsigned center = centers[centers_n - 1];", 0),
+            (r"distFun_\(data\[j\], center\)", "DISTF(j, center)", 0), (r"data\.size\(\)", "data_n", 0), (r"centers\.size\(\)", "centers_n", 0),
+            (r"-std::numeric_limits<double>::infinity\(\)", "-__builtin_inf()", 0), (r"std::numeric_limits<double>::epsilon\(\)", "DBL_EPSILON", 0), (r"std::size_t", "size_t", 0)]
+UNITS.append(dict(name="c10_greedykcenters", template="C10/kcenters.c", mode="plain", entry="h_kcenters", flags=PFLAGS, unwind=6, level="bounded", bound="<= 4 data points, k <= 3", backend="cadical", timeout=600, functions=["GreedyKCenters::kcenters"],
+                  sources=[dict(name="kcenters", file=KCF, sig=r"void kcenters\(const std::vector<_T> &data, unsigned int k, std::vector<unsigned int> &centers, Matrix &dists\)", rules=KC_RULES, loops={"allow_uncontracted": True})],
+                  canaries=[dict(name="last_column_not_filled", where="body:kcenters", rx=r"for \(unsigned j = 0; j < data_n; \+\+j\)\s*dists\(j, i\) = DISTF\(j, center\);", repl=";"),
+                            dict(name="distance_to_the_last_centre_only", where="body:kcenters", rx=r"< minDist\[j\]\)\s*minDist\[j\] = dists\(j, i - 1\);", repl="< minDist[j] || 1) minDist[j] = dists(j, i - 1);")]))
+
 ASSUMPTIONS = ["GNAT pruning: distances are exact integers standing for reals (linear rule: valid over the reals iff over the integers; rounding not modelled); the range/radius envelopes contain the true pivot-to-element distances (the structure invariant maintained by add/split, assumed here); the metric satisfies the triangle inequality",
                "elements are addressed by slot; the distance function returns a fixed non-NaN value per element; std::sort is an assumed contract (result ordered by the comparator)", "<= 64 stored elements"]
 TRUSTED = ["extraction rewrite table of units/C10.py", "stubs in units/C10/linear.c", "CBMC 6.11 DFCC + cadical"]
 NOT_COVERED = ["NearestNeighborsGNAT as a whole structure (recursion over the tree, Node::split (pivot selection) and the recursion of add below one node, nearestK pruning with the moving k-th best, rebuilds, removal cache), GNATNoThreadSafety beyond the draining of its member result queue, NearestNeighborsSqrtApprox: only the node primitives and the radius pruning step of one node are checked",
-               "nearestK of the linear structure (std::partial_sort), GreedyKCenters, Node::split (caught by the native oracle only)"]
+               "nearestK of the linear structure (std::partial_sort); of Node::split only the distribution loop (bounded), GreedyKCenters bounded (<= 4 points)"]
 
 MISC_CPPS = []
 NATIVE = [
